@@ -322,6 +322,29 @@ func runC13(c *fw.Ctx, cs fw.Case) {
 			}
 		}
 
+		// the same windows on one shared table (aspiration pattern), then the full window: the contract
+		// must survive whatever the narrowed searches left in the table
+		if fp := root.h.Final(); cfg.posDetermined && repetitionFree(root.h) && fp.Half+depth < 100 && !moveless {
+			inner, tname := newTable(context.Background(), r.Intn(7))
+			ws := windowsAround(r, v, 0.125)
+			ws = append(ws, [2]refsearch.Score{{Kind: refsearch.Loss}, {Kind: refsearch.Win}})
+			for _, w := range ws {
+				b, _ := boardOf(root.h)
+				sctx := &search.Context{Alpha: w[0].ToEval(), Beta: w[1].ToEval(), TT: inner}
+				_, score, _, err := s.Search(budgetCtx(), sctx, b, depth)
+				if err != nil {
+					break
+				}
+				c.Eval(1)
+				c.Count("windowed_searches_shared_table", 1)
+				got, okScore := refsearch.FromEval(score)
+				if !okScore || !clipOK(v, w[0], w[1], got) {
+					c.Violate("window:clip-shared-table", "window (%v, %v) on a table (%s) shared with earlier windowed searches: search returns %v, the true value is %v: %s", w[0], w[1], tname, score, v, what)
+					break
+				}
+			}
+		}
+
 		// quiescence called directly on the root position
 		if rcfg.QuietExplore != nil {
 			qs := s.(search.AlphaBeta).Eval
